@@ -5,6 +5,7 @@ import (
 	"io"
 
 	"gosim/hb"
+	"gosim/rng"
 )
 
 // Fault is a scripted event: when the named counter reaches N, Act happens.
@@ -214,6 +215,17 @@ func (e *Env) apply(f *Fault) {
 	case "unstall":
 		s := f.Server % len(c.Servers)
 		e.unstall(s)
+	case "metabad":
+		// every hbase:meta row of a user region is answered damaged in the
+		// given way (f.Rule.Msg) until the cluster heals
+		kind := f.Rule.Msg
+		rr := rng.New(rng.Derive(e.Seed, 4242))
+		c.MetaCorruptFn = func(reg *hb.Region, cells []hb.Cell) []hb.Cell {
+			out, _ := hb.CorruptMetaKind(rr, cells, kind)
+			e.Stats.FaultKinds["meta/"+kind]++
+			return out
+		}
+		desc = "metabad " + kind
 	case "dialdelay":
 		e.DialDelay = ms(f.Dur)
 		desc = fmt.Sprintf("dialdelay %v", e.DialDelay)
